@@ -287,10 +287,10 @@ Proof. vm_compute. repeat split. repeat constructor. Qed.
    operation returns the same result as the forest-level operation and re-establishes [Rep] - for
    ALL arguments, error exits included - so "exactly one parent / exactly once by identity in that
    parent's child list / never its own ancestor / owner = the tree / reachable = counted" become
-   theorems about the assignments the code executes ([HeapOK]).  Not yet covered by a simulation
-   proof (modelled and compared with the implementation, see harness/heap_obs.py, where [h_step]
-   defines them): remove(keep_children=True); not modelled: the shortcuts, copies, deep sort,
-   set_data / rename, filter, from_dict, del. *)
+   theorems about the assignments the code executes ([HeapOK]).  Covered: add_child(data), the four
+   shortcuts, remove (plain, keep_children, with_clones), remove_children, clear, del, move_to,
+   sort_children(deep=False), metadata edits, new tree.  Not modelled yet: copies (add(node), add(tree),
+   copy_to, Tree.copy, Node.copy), deep sort, set_data / rename, filter, from_dict. *)
 From NT Require Import Heap HeapProofs HeapRefine.
 
 (* one step: same result, related states *)
